@@ -64,6 +64,15 @@ type sched struct {
 	garb    int
 	async   int32            // push-async deliveries not yet acknowledged
 	rereq   map[string][]int // race-on-rerequest: peers asked so far for "h/f/i"
+
+	// refetch family (under amu)
+	reqSeen        map[string]bool // "h/f/i" requested at least once
+	canaryReleased bool
+	verdictSeen    bool
+	awaiting       map[uint32]bool // refetched indexes not yet requested again
+	ticks          int             // canary re-requests since the verdict
+	ticksTotal     int
+	firstBy        map[uint32]int // index -> liar whose delivery was acknowledged first (since the last refetch)
 }
 
 func newSched(w *world) *sched {
@@ -176,6 +185,16 @@ func (s *sched) deliverLocked(it *item) {
 		}
 		select {
 		case <-aw.ch:
+			if !it.missing {
+				s.amu.Lock()
+				if s.firstBy == nil {
+					s.firstBy = map[uint32]int{}
+				}
+				if _, ok := s.firstBy[it.i]; !ok {
+					s.firstBy[it.i] = it.peer
+				}
+				s.amu.Unlock()
+			}
 		case <-time.After(3 * time.Second):
 			s.w.log.add(Ev{K: "note", P: it.peer, C: -1, A: id, M: "chunk barrier not acknowledged"})
 		}
@@ -462,8 +481,102 @@ func (s *sched) racePeers(n int, prefer ...int) ([]int, []bool) {
 	return peers, wrong
 }
 
+// canary reports whether a request for (h, f, i) is the withheld one, and counts it as a tick.
+func (s *sched) canary(h uint64, f uint32, i uint32) bool {
+	if !s.w.scn.Canary || len(s.w.scn.Catalog) == 0 {
+		return false
+	}
+	m := s.w.scn.Catalog[0]
+	if h != m.Height || f != m.Format || i != m.Chunks-1 {
+		return false
+	}
+	s.amu.Lock()
+	defer s.amu.Unlock()
+	if s.canaryReleased {
+		return false
+	}
+	s.ticksTotal++
+	if s.verdictSeen {
+		s.ticks++
+	}
+	if (s.verdictSeen && len(s.awaiting) == 0) || s.ticks > 48 || s.ticksTotal > 120 {
+		s.canaryReleased = true
+		return false
+	}
+	return true
+}
+
+// noteRequest records a chunk request seen by any liar.
+func (s *sched) noteRequest(h uint64, f uint32, i uint32) {
+	s.amu.Lock()
+	if s.reqSeen == nil {
+		s.reqSeen = map[string]bool{}
+	}
+	s.reqSeen[fmt.Sprintf("%d/%d/%d", h, f, i)] = true
+	if s.verdictSeen && len(s.w.scn.Catalog) > 0 && h == s.w.scn.Catalog[0].Height && f == s.w.scn.Catalog[0].Format {
+		delete(s.awaiting, i)
+	}
+	s.amu.Unlock()
+}
+
+// noteVerdict: the app is about to answer with a refetch list / sender rejection (refetch family).
+func (s *sched) noteVerdict(refetch []uint32, rejected []int, cur uint32) {
+	if !s.w.scn.Liveness {
+		return
+	}
+	s.amu.Lock()
+	s.verdictSeen = true
+	if s.awaiting == nil {
+		s.awaiting = map[uint32]bool{}
+	}
+	for _, i := range refetch {
+		if !(s.w.scn.Canary && len(s.w.scn.Catalog) > 0 && i == s.w.scn.Catalog[0].Chunks-1) {
+			s.awaiting[i] = true
+		}
+		delete(s.firstBy, i)
+	}
+	for i, p := range s.firstBy {
+		for _, rp := range rejected {
+			if p == rp && i > cur {
+				s.awaiting[i] = true
+				delete(s.firstBy, i)
+			}
+		}
+	}
+	s.amu.Unlock()
+}
+
 func (s *sched) exec(a Action, ctx holdCtx) {
 	switch a.Kind {
+	case "await-fetched":
+		// every index requested at least once; every answer (but the canary's) delivered and acknowledged
+		deadline := time.Now().Add(6 * time.Second)
+		for time.Now().Before(deadline) {
+			all := true
+			s.amu.Lock()
+			for i := uint32(0); i < ctx.n; i++ {
+				if !s.reqSeen[fmt.Sprintf("%d/%d/%d", ctx.h, ctx.f, i)] {
+					all = false
+				}
+			}
+			s.amu.Unlock()
+			if all {
+				break
+			}
+			time.Sleep(5 * time.Millisecond)
+		}
+		for t := 0; t < 3; t++ {
+			for {
+				it := s.pick(true)
+				if it == nil {
+					break
+				}
+				s.deliver(it)
+			}
+			time.Sleep(10 * time.Millisecond)
+		}
+		s.dmu.Lock() // nothing in flight any more
+		s.dmu.Unlock()
 	case "race":
 		h, f, n := ctx.h, ctx.f, ctx.n
 		if n == 0 {
